@@ -282,6 +282,27 @@ both('t_macn_core', MC,
       'r(x, z) <-- edge(x, y), edge(y, m2), edge(m2, z), k(x)',
       'r(mid4, w) <-- p(mid4, w), edge(mid4, m1), edge(m1, m4), edge(m4, m2), edge(m2, w)',
       'b(x, z) <-- edge(x, m1), edge(m1, w1), k(w1), edge(w1, y), edge(y, m2), edge(m2, w2), k(w2), edge(w2, z)'], tags=['twin'])
+# more hygiene shapes: call-site expressions that mention a variable named like the macro's local, a macro-local aggregation
+# result, the same macro in both branches of a disjunction, a macro local next to an identifier parameter
+MACH = ['macro two_hop($a: expr, $b: expr) { edge($a, mid), edge(mid, $b) }',
+        'macro many($x: expr) { agg c = count() in p($x, _), if c > 1 }',
+        'macro lk($r: ident, $x: expr, $y: expr) { $r($x, w), $r(w, $y) }',
+        'macro shift($x: expr, $y: expr) { p($x, w), let w2 = w + 1, edge(w2, $y) }']
+both('t_mach_sugar', MC, [], body=['pub struct P;'] + [d + ';' for d in MC] + MACH + [
+     'r(mid, z) <-- k(mid), two_hop!(mid + 1, z);',
+     'a(x) <-- k(x), many!(x), many!(x + 1);',
+     'r(x, y) <-- k(x), k(y), (two_hop!(x, y) | two_hop!(y, x));',
+     'r(w, z) <-- k(w), lk!(edge, w, z);',
+     'r(x, z) <-- lk!(edge, x, y), lk!(p, y, z);',
+     'r(w2, z) <-- k(w2), shift!(w2, z), shift!(z, w2);'], tags=['twin'], twin=('t_mach_core', 'L'))
+both('t_mach_core', MC,
+     ['r(mid, z) <-- k(mid), edge(mid + 1, m1), edge(m1, z)',
+      'a(x) <-- k(x), agg c1 = count() in p(x, _), if c1 > 1, agg c2 = count() in p(x + 1, _), if c2 > 1',
+      'r(x, y) <-- k(x), k(y), edge(x, m1), edge(m1, y)',
+      'r(x, y) <-- k(x), k(y), edge(y, m1), edge(m1, x)',
+      'r(w, z) <-- k(w), edge(w, w1), edge(w1, z)',
+      'r(x, z) <-- edge(x, w1), edge(w1, y), p(y, w3), p(w3, z)',
+      'r(w2, z) <-- k(w2), p(w2, wa), let wa2 = wa + 1, edge(wa2, z), p(z, wb), let wb2 = wb + 1, edge(wb2, w2)'], tags=['twin'])
 # ---- S-level: permutations / renamings (both sides are translation-validated; their specs are equal as sets)
 both('t_perm_rules', [E2, 'relation path(i32, i32)'], ['path(x, z) <-- edge(x, y), path(y, z)', 'path(x, y) <-- edge(x, y)'],
      tags=['twin'], twin=('tc_lin', 'L'))
